@@ -126,7 +126,9 @@ def build_problem(case):
                                tdep=tdep, gap='none', empty_frac=0.35,
                                max_rings=4, length=0.4, lf_frac=0.15,
                                regions_frac=0.35, dd_frac=0.4,
-                               vel_range=(0.03, 4.0))
+                               vel_range=(0.03, 4.0), own_power_mesh=0.5,
+                               bc_kinds=('flowrate', 'flowrate',
+                                         'outlet_temp', 'delta_temp'))
     for nm, t in P['types'].items():
         if not t.get('use_low_fidelity_model') and rng.random() < 0.4:
             wl.add_pin_model(rng, P, nm, kind='fuel')
@@ -140,7 +142,9 @@ def build_problem(case):
         P['setup']['conv_approx_dz_cutoff'] = float(
             wl.choose(rng, [0.002, 0.005, 0.01]))
         slow = P['positions'][int(rng.integers(len(P['positions'])))]
-        slow['flowrate'] = slow['flowrate'] * float(
+        slow.pop('outlet_temp', None)
+        slow.pop('delta_temp', None)
+        slow['flowrate'] = slow['nominal_flowrate'] * float(
             wl.loguniform(rng, 0.005, 0.05))
         for sp in P['power']['asm'].values():
             sp['comps'] = [1, 2, 3]
@@ -230,6 +234,14 @@ def run_case(case):
             Q = standalone_problem(P, int(k0))
             Q['setup'] = dict(Q['setup'])
             Q['setup']['axial_mesh_size'] = req
+            # the power-mesh bounds of every assembly are axial planes of
+            # the core run: request the same planes for the stand-alone run
+            zs = set(P['power']['zb'][1:-1])
+            for sp in P['power']['asm'].values():
+                zs.update(sp.get('zb', [])[1:-1])
+            if zs:
+                Q['setup']['axial_plane'] = sorted(
+                    set(Q['setup'].get('axial_plane', [])) | zs)
             t2 = []
 
             def post2(args, kwargs, r_, tok):
